@@ -56,9 +56,11 @@ def rand_bin(rnd, cfg):
 
 def gen_case(seed, tier, idx):
     rnd = mkrnd(seed, "arbiter", idx)
-    kind = idx % 4
+    kind = idx % 6
     if kind == 3:
         return gen_exhaustive(rnd, tier)
+    if kind >= 4:
+        return gen_many(rnd, tier, contention=(kind == 5))
     cfg = gen_cfg(rnd, tier)
     n = len(cfg["intrs"])
     T = 300 if tier == "quick" else 600
@@ -74,7 +76,53 @@ def gen_case(seed, tier, idx):
                     cur[i][0] = int(rnd.random() < 0.7)
             row.append(list(cur[i]))
         stim.append([row, rand_bin(rnd, cfg)])
-    return {"engine": "arbiter", "kind": ["random", "sticky", "sticky", "exh"][kind], "cfg": cfg, "stim": stim}
+    return {"engine": "arbiter", "kind": ["random", "sticky", "sticky", "exh", "many", "contention"][kind], "cfg": cfg, "stim": stim}
+
+
+def gen_many(rnd, tier, contention):
+    """Many initiators (6..20, not only powers of two), request-heavy: several initiators request in the same
+    cycle from every owner position, owners release after short transfers, so the next-owner choice among
+    simultaneous requesters is exercised for every cyclic distance."""
+    cfg = gen_cfg(rnd, tier, nmax=2)
+    n = rnd.choice([6, 6, 7, 9, 10, 11, 12, 13, 14, 15, 17, 18, 19, 20]) if tier == "quick" else rnd.randint(6, 33)
+    base = cfg["intrs"][0]
+    cfg["intrs"] = [dict(base, feat=list(base["feat"])) for _ in range(n)]
+    if rnd.random() < 0.5:
+        for ic in cfg["intrs"]:
+            ic["feat"] = [int(rnd.random() < 0.5) if k > 1 else ic["feat"][k] for k in range(len(FE))]
+    T = 250 if tier == "quick" else 600
+    stim = []
+    want = [0] * n
+    p_req = rnd.choice([0.1, 0.3, 0.6]) if not contention else 1.0
+    hold = 0
+    for t in range(T):
+        row = []
+        for i, ic in enumerate(cfg["intrs"]):
+            if contention:
+                want[i] = 1
+            elif rnd.random() < 0.2:
+                want[i] = int(rnd.random() < p_req)
+            x = rand_iin(rnd, cfg, ic)
+            x[0] = want[i]                      # cyc
+            x[1] = int(rnd.random() < 0.7)      # stb
+            x[6] = int(rnd.random() < 0.2)      # lock
+            row.append(x)
+        # let the bus go every few cycles: all requesters drop cyc/stb/lock for one cycle in turn
+        hold += 1
+        if hold >= rnd.choice([1, 2, 3, 5]):
+            hold = 0
+            k = rnd.randrange(n)
+            if contention:
+                # whoever owns the bus cannot be known here: drop everybody's strobe and lock, and the cycle of a
+                # random third of the initiators, which releases the bus whenever the owner is among them
+                for i in range(n):
+                    row[i][1] = 0; row[i][6] = 0
+                    if rnd.random() < 0.34:
+                        row[i][0] = 0
+            else:
+                row[k][0] = 0; want[k] = 0
+        stim.append([row, rand_bin(rnd, cfg)])
+    return {"engine": "arbiter", "kind": "contention" if contention else "many", "cfg": cfg, "stim": stim}
 
 
 def gen_exhaustive(rnd, tier):
